@@ -7,7 +7,7 @@ if ! git -C /repo apply --check "$P" 2>/dev/null; then echo "PATCH DOES NOT APPL
 git -C /repo apply "$P"
 trap 'git -C /repo checkout -- . ; git -C /repo clean -fdq -- src' EXIT
 for id in "$@"; do
-  out=$(VERIF_SEED=${VERIF_SEED:-1} ./check $id --tier ${TIER:-quick} 2>&1); rc=$?
+  out=$(VERIF_SEED=${VERIF_SEED:-1} timeout ${CHECK_TIMEOUT:-900} ./check $id --tier ${TIER:-quick} 2>&1); rc=$?
   keys=$(echo "$out" | grep -A1 "^VIOLATION" | grep "key=" | sed 's/ *key=//' | sort -u | head -5 | tr '\n' ';')
   echo "$id rc=$rc $(echo "$out" | grep -c '^VIOLATION') violations; keys: $keys | $(echo "$out" | grep '^property=' | sed 's/.*executed=\([0-9]*\).*wall=\(.*\)/executed=\1 wall=\2/')"
 done
